@@ -18,6 +18,7 @@ EXPLANATION = (
     "manager; (4) batch == incremental: T_route(Blocker::new) equals T_route(Blocker::add_filter) "
     "on every parser-feasible valuation, add_filter tests existence before any insertion, and "
     "filter_exists looks in a list add_filter stores to; (5) serialization never touches the cache."
+    ' Round 8: NetworkFilterList::filter_exists answers true only for a stored rule with the same id (add_filter refuses what it reports); add_filter would have to honour `$badfilter` rules loaded earlier (known finding F-C06-3).'
 )
 NOT_DECIDED = "Nothing structural: the argument is a frame rule and covers histories of any length; " \
               "value-level correctness of each query is the subject of C01-C05."
@@ -379,14 +380,29 @@ def rule_exists_identity(run, F, cfg):
             if not ok:
                 bad.append((f.loc(b), val, sorted(conds)[:4]))
         else:
-            # iterator form: ..any(|saved| saved.id == filter.id)
-            m = re.search(r"Iterator>::any\(.*HashMap::get\(arg:self\.filter_map.*closure\[([^\]]+)\]", val)
+            # iterator form: the answer is a (nested) `any` whose innermost predicate is `saved.id == filter.id`, over the
+            # buckets handed out by a closure that is the plain lookup in self.filter_map; every closure on the way is
+            # either that lookup, another `any` over its argument, or the id comparison
             okc = False
-            if m:
-                for c in F.closures_of(f.name):
-                    rets = [v for k2, b2, v, c2, _ in conditional_defs(c, 0)]
-                    if rets and all(re.search(r"\.id Eq .*\.id\)$", r_) for r_ in rets):
-                        okc = True
+            if re.match(r"^(<.*> as )?std::iter::Iterator>?::any\(", val):
+                def nested(n_):
+                    out = []
+                    for c_ in F.closures_of(n_):
+                        out.append(c_)
+                        out += nested(c_.name)
+                    return out
+                kinds = []
+                for c_ in {c.name: c for c in nested(f.name)}.values():
+                    r_ = c_.expr_local(0)
+                    if re.match(r"^std::collections::HashMap::get\(up:self\.filter_map, arg:\w+\)$", r_):
+                        kinds.append("lookup")
+                    elif re.match(r"^\((arg:\w+\.id Eq up:\w+\.id|up:\w+\.id Eq arg:\w+\.id)\)$", r_):
+                        kinds.append("same-id")
+                    elif re.match(r"^(<.*> as )?std::iter::Iterator>?::any\((core::slice::iter\()?arg:\w+\)?, closure\[", r_):
+                        kinds.append("any")
+                    else:
+                        kinds.append("other:" + r_[:40])
+                okc = "lookup" in kinds and "same-id" in kinds and not [k_ for k_ in kinds if k_.startswith("other")]
             if not okc:
                 bad.append((f.loc(b), val[:120], sorted(conds)[:4]))
     run.floor("C06.4.batch-incremental", f"`true` answers of NetworkFilterList::filter_exists [{cfg}]", trues, 1)
